@@ -289,8 +289,11 @@ func (s *sim) handleGet(t *task, fresh *hooks.Printer) {
 		i := (v - 1) % len(s.idle)
 		rec = s.idle[i]
 		s.idle = append(s.idle[:i:i], s.idle[i+1:]...)
-		if rec.state != 1 {
-			s.violate("pool-double-handout", t, fmt.Sprintf("printer #%d state %d", rec.id, rec.state))
+		if rec.state == 0 {
+			// only possible after a double put (see handlePut)
+			s.violate("pool-double-handout", t, fmt.Sprintf("printer #%d handed to task %d while task %d still holds it", rec.id, t.id, rec.holder))
+			s.out--
+			s.outBy[rec.holder]--
 		}
 		recycled = 1
 		if rec.lastPutBy == t.id {
@@ -323,7 +326,11 @@ func (s *sim) handlePut(t *task, p *hooks.Printer) {
 		s.byPtr[p] = rec
 	} else if rec.state != 0 {
 		s.violate("pool-double-put", t, fmt.Sprintf("printer #%d put while not handed out (state %d)", rec.id, rec.state))
-		// keep it out of the idle list a second time
+		// A real sync.Pool accepts the second Put and will hand the same
+		// object to two callers; do the same, so that the consequences
+		// play out for the other oracles (and properties) as well.
+		s.idle = append([]*prec{rec}, s.idle...)
+		s.pool.Puts++
 		return
 	} else {
 		s.out--
